@@ -213,7 +213,7 @@ CmpImpl(env, T, x, y, pos) ==
                          ELSE IF HasMeth(T.e) /\ MethArg(T.e) = "v" THEN CmpImpl(env, StripMeth(T.e), x.v, y.v, "top")
                          ELSE CmpImpl(env, T.e, x.v, y.v, "top")
     [] T.k = "slice"  ->
-         IF x.nil THEN (IF y.nil THEN 0 ELSE -1)                                 \* (no bytes.Compare shortcut since a8c073e)
+         IF x.nil THEN (IF y.nil THEN 0 ELSE -1)                                 \* (no bytes.Compare shortcut since 6bf4d66)
          ELSE IF y.nil THEN 1
          ELSE IF Len(x.es) # Len(y.es) THEN Sgn(Len(x.es), Len(y.es))            \* length first
          ELSE FirstNZ([i \in DOMAIN x.es |-> CmpImpl(env, T.e, x.es[i], y.es[i], "field")], 1)
@@ -238,7 +238,7 @@ CmpImpl(env, T, x, y, pos) ==
 (* twin token such as -0 has its own pattern, as Float64bits has).         *)
 HMod == 1000003
 Acc(h, c) == (31 * h + c) % HMod
-\* since 4c93b29 floats are hashed as Float64bits(x + 0): a twin (-0) has the pattern of its canonical token
+\* since b76a3fe floats are hashed as Float64bits(x + 0): a twin (-0) has the pattern of its canonical token
 CanonIdx(b, tok) == IF LeafTab[b][TokIdx[b][tok]].twin
                     THEN CHOOSE i \in DOMAIN LeafTab[b] : ~LeafTab[b][i].twin /\ LeafTab[b][i].rank = Rank(b, tok)
                     ELSE TokIdx[b][tok]
